@@ -52,7 +52,7 @@ PROPS = {
         level_note=B_NOTE + '; u64/u128 storage impls and From<usize>/From<&Kmer> one-liners are covered by Kani word-level harnesses and bounded stand-ins',
         technique='deductive verification (Verus) of extracted functions against contracts; head-offset ghost state',
         verus=[
-            dict(name='c04', mode='T', roots=['slice.try_usize', 'slice.into_u8', 'kmer.storage', 'kmer.unsafe_from', 'seq.raw', 'slice.to_owned', 'slice.bitops', 'seq.bitops', 'seq.clone', 'seq.push', 'seq.prepend', 'seq.insert', 'seq.append', 'seq.truncate', 'seq.clear', 'seq.new', 'seq.with_capacity'] + REMOVE),
+            dict(name='c04', mode='T', roots=['slice.try_usize', 'slice.try_usize.accept', 'slice.into_u8', 'kmer.storage', 'kmer.unsafe_from', 'seq.raw', 'slice.to_owned', 'slice.bitops', 'seq.bitops', 'seq.clone', 'seq.push', 'seq.prepend', 'seq.insert', 'seq.append', 'seq.truncate', 'seq.clear', 'seq.new', 'seq.with_capacity'] + REMOVE),
             dict(name='c04', mode='R', roots=['slice.try_usize', 'slice.into_u8']),
         ],
         standin=True,
